@@ -240,7 +240,7 @@ impl Property for C14 {
     }
     fn cases(&self, tier: Tier) -> u32 {
         match tier {
-            Tier::Quick => 10_000,
+            Tier::Quick => 25_000,
             Tier::Thorough => 400_000,
         }
     }
